@@ -284,7 +284,11 @@ class SimpleOperationExecutor:
 
     def _file_hash(self, filename):
         """Implementation of ``file_comparison_result`` for ``'HASH'``."""
-        norm_cased_filename = os.path.normcase(filename)
+        # Due to symbolic links, we might be able to reach the file using
+        # multiple filenames. We key everything off of its real filename, so
+        # that when the build rebuilds the file, the hashes we computed using
+        # the other filenames don't outlive the old contents.
+        norm_cased_filename = os.path.normcase(os.path.realpath(filename))
         is_built = self._new_cache.has_norm_cased_file(norm_cased_filename)
         # While the file is being built, its contents are in flux: another
         # thread may be about to replace it or in the middle of writing it. So
